@@ -38,7 +38,7 @@ DRIVER_API = {
     "optimize": "optimize", "fold_constants": "fold_constants", "remove_unused_nodes": "remove_unused_nodes",
     "remove_unused_functions": "remove_unused_functions", "rewrite_default": "rewrite_rules",
     "rewrite_empty": "rewrite_empty", "rewrite_rules": "rewrite_rules", "convert_version": "convert_version",
-    "replace_functions": "replace_functions",
+    "replace_functions": "replace_functions", "replace_functions_keep": "replace_functions",
 }
 SER_EXPR = "ser(T(de(M)))"
 
@@ -96,6 +96,8 @@ def driver_tables(drv: core.Driver) -> dict:
     for a in names:
         lines += [f"path {a} proto", f"path {a} ir", f"touches {a}"]
     lines += ["inline 0", "inline 1", "path convert_version_old proto"]
+    rep_lines = [f"replace {e} {b}" for e in ("proto", "ir") for b in ("0", "1")]
+    rep_outs = drv.ask(rep_lines)
     route_lines = [f"route {a} {e}" for a in ("optimize", "fold_constants", "convert_version") for e in ("proto", "ir")]
     route_outs = drv.ask(route_lines)
     outs = drv.ask(lines)
@@ -107,6 +109,12 @@ def driver_tables(drv: core.Driver) -> dict:
                 "touches": set(filter(None, outs[3 * i + 2].split(",")))}
     t["_inline"] = {"0": outs[-3], "1": outs[-2]}
     t["_convert_old"] = parse_path(outs[-1])
+    t["_replace"] = {}
+    for ln, o_ in zip(rep_lines, rep_outs):
+        if o_ == "bad-op":
+            raise core.Infra("driver rejected " + ln)
+        _, e, b = ln.split()
+        t["_replace"][(e, b)] = dict(kv.split("=") for kv in o_.split(";"))
     t["_route"] = {}
     for ln, o_ in zip(route_lines, route_outs):
         if o_ == "bad-op":
@@ -277,6 +285,8 @@ def check_wrapper(api: str, M, o: dict, opset: int, tables: dict, stats: Counter
         fns = None
         if api == "replace_functions":
             Mp, fns = c15_api.split_functions(Mp)
+        elif api == "replace_functions_keep":
+            fns = [c15_gen.triple_function(opset)]
         before = Mp.SerializeToString(deterministic=True)
         try:
             c15_api.call_proto(api, Mp, o, fns)
@@ -292,6 +302,15 @@ def check_wrapper(api: str, M, o: dict, opset: int, tables: dict, stats: Counter
     M0, P, Q, NM = ob["M"], ob["P"], ob["Q"], ob["NM"]
     stats[f"api_{api}"] += 1
     # ---- errors: same on both entries, proto argument untouched
+    if api in ("replace_functions", "replace_functions_keep"):
+        # T0: the guard of replace_functions vs the Lean `protoReplace`/`irReplace`
+        hasf = "1" if len(ob["M"].functions) else "0"
+        stats[f"replace_guard_functions_{hasf}"] += 1
+        for entry, err in (("proto", ob["err_p"]), ("ir", ob["err_i"])):
+            want = tables["_replace"][(entry, hasf)]["ret"]
+            if (want == "raised") != (err is not None):
+                problems.append(("tie", None, f"{api} [{entry} entry] on a model {'with' if hasf == '1' else 'without'} local "
+                                 f"functions: {'raised ' + str(err) if err else 'returned'}, model says ret={want}"))
     if ob["err_p"] or ob["err_i"]:
         stats[f"err_{api}_{ob['err_p']}"] += 1
         if ob["err_p"] != ob["err_i"]:
@@ -338,6 +357,42 @@ def check_wrapper(api: str, M, o: dict, opset: int, tables: dict, stats: Counter
         fid = "C15-FALLBACK" if pred_fallback(api, opset, o, d) else None
         problems.append(("property", fid, f"{api}{o}: surviving element lost content: {d}"))
 
+    # ---- O2b: an initializer may disappear only together with its uses (payload never lost under a live value)
+    def refs(g, acc):
+        for nd in g.node:
+            acc.update(i_ for i_ in nd.input if i_)
+            for a in nd.attribute:
+                if a.HasField("g"):
+                    refs(a.g, acc)
+                for sg in a.graphs:
+                    refs(sg, acc)
+        acc.update(o_.name for o_ in g.output)
+        return acc
+
+    for label, R in (("proto", P), ("IR", Q)):
+        have = {t.name for t in R.graph.initializer}
+        used = refs(R.graph, set())
+        for t in NM.graph.initializer:
+            if t.name not in have and t.name in used:
+                stats["initializer_lost_under_live_value"] += 1
+                problems.append(("property", None, f"{api}{o} [{label} entry]: initializer '{t.name}' ({list(t.dims)}) lost its payload "
+                                 f"but the value is still used" + (" (now a required graph input)" if any(i_.name == t.name for i_ in R.graph.input) else "")))
+        for t in NM.graph.initializer:
+            if len(t.dims) and t.dims[0] * (t.dims[1] if len(t.dims) > 1 else 1) > 1000:
+                stats[f"big_initializer_seen_{api}"] += 1
+    # ---- O2c: replace_functions must not delete / change model-local functions it was not asked to replace
+    if api in ("replace_functions", "replace_functions_keep"):
+        given = set()  # (replace_functions: the model was stripped of its functions; _keep: only c15.repl::Triple is given)
+        for label, R in (("proto", P), ("IR", Q)):
+            after = {(f_.domain, f_.name, f_.overload): f_ for f_ in R.functions}
+            for f_ in NM.functions:
+                k_ = (f_.domain, f_.name, f_.overload)
+                if k_ in given:
+                    continue
+                if k_ not in after:
+                    problems.append(("property", None, f"{api} [{label} entry]: model-local function {k_} was not named in the replacement but is gone"))
+                elif c15_cmp.hard(c15_cmp.diff(f_, after[k_])):
+                    problems.append(("property", None, f"{api} [{label} entry]: model-local function {k_} was not named in the replacement but changed"))
     # ---- O3: in place or pure
     in_place = api in ("fold_constants", "remove_unused_nodes", "remove_unused_functions", "convert_version")
     pm = ob["proto"]
@@ -461,7 +516,7 @@ SHRINK_OFF = {
     "producer": False, "domain": False, "model_version": False, "model_doc": False, "model_meta": False,
     "explicit_defaults": False, "symbolic_batch": False, "function_doc": False, "function_meta": False,
     "function_value_info": False, "w2_raw": False, "const_tensor_node": "none", "expand_fold": "none",
-    "sparse_attr": False, "subgraph_if": False, "second_custom_domain": False, "expand_from_constant_nodes": False, "tensor_meta": False, "other_fields": False, "function_dead_node": False,
+    "big_initializer": "none", "repl_call": False, "sparse_attr": False, "subgraph_if": False, "second_custom_domain": False, "expand_from_constant_nodes": False, "tensor_meta": False, "other_fields": False, "function_dead_node": False,
 }
 
 
